@@ -94,6 +94,15 @@ def run(ctx, flavour="static"):
     json.dump(out, open(summ, "w"))
     return out
 
+def escalate(ctx, flavour, pid, budget_shards=32):
+    """The correspondence broke but the quick run's oracle found no failing input: search harder for a concrete
+    failing input (more, longer histories with other seeds). Returns oracle findings of property pid."""
+    ectx = dict(ctx, tier="thorough", seed=ctx["seed"] * 7919 + 13)
+    res = run(ectx, flavour)
+    f, _ = findings_for(res, pid, [])
+    return f
+
+
 def coverage_from(res, rule_extra=""):
     st = res["stats"]
     hist = len(st)
